@@ -308,6 +308,22 @@ func apply(doc *gedcom.Document, op Op) (ok bool, panicMsg string) {
 			return false, ""
 		}
 		doc.DeleteNode(r)
+		stale[op.Rt+" "+op.Rp] = r
+	case "DocDeleteStale":
+		// a caller that kept the handle of a record it removed earlier asks for its removal again (a record with the
+		// same pointer may have been added since): the document does not hold that node, nothing may change
+		r := stale[op.Rt+" "+op.Rp]
+		if r == nil {
+			return false, ""
+		}
+		doc.DeleteNode(r)
+	case "DocDeleteForeign":
+		// removal of a node that lives in another document (a copy of one of this document's records)
+		r := findRoot(doc, op.Rt, op.Rp)
+		if r == nil {
+			return false, ""
+		}
+		doc.DeleteNode(gedcom.DeepCopy(r, gedcom.NewDocument()))
 	default:
 		return false, ""
 	}
@@ -458,8 +474,12 @@ func universeOf(h History) []string {
 	return out
 }
 
+// handles of root records that were removed from the document of the current history (DocDeleteStale)
+var stale = map[string]gedcom.Node{}
+
 func runHistory(id int, h History, enc *json.Encoder) {
 	doc := gedcom.NewDocument()
+	stale = map[string]gedcom.Node{}
 	uni := universeOf(h)
 	pre := forest(doc)
 	for k, op := range h.Ops {
@@ -534,6 +554,7 @@ func Gen(w io.Writer, seed int64, n, length int) error {
 	enc := json.NewEncoder(bw)
 	for hI := 0; hI < n; hI++ {
 		indis, fams := []string{}, []string{}
+		gone := []string{} // pointers of individuals that were removed (handles are kept by the executing side)
 		notes := 0
 		nextI, nextF := 1, 1
 		h := History{}
@@ -614,6 +635,7 @@ func Gen(w io.Writer, seed int64, n, length int) error {
 				if rng.Intn(2) == 0 && len(indis) > 1 {
 					op = Op{K: "DocDeleteNode", Rt: "INDI", Rp: pick(indis)}
 					indis = remove(indis, op.Rp)
+					gone = append(gone, op.Rp)
 				} else if len(fams) > 1 {
 					op = Op{K: "DocDeleteNode", Rt: "FAM", Rp: pick(fams)}
 					fams = remove(fams, op.Rp)
@@ -621,7 +643,21 @@ func Gen(w io.Writer, seed int64, n, length int) error {
 					continue
 				}
 			default:
-				continue
+				switch j := rng.Intn(3); {
+				case j == 0 && len(gone) > 0: // the pointer of a removed individual is used again
+					p := pick(gone)
+					if strings.Contains(" "+strings.Join(indis, " ")+" ", " "+p+" ") {
+						continue
+					}
+					op = Op{K: "AddIndividual", P: p}
+					indis = append(indis, p)
+				case j == 1 && len(gone) > 0:
+					op = Op{K: "DocDeleteStale", Rt: "INDI", Rp: pick(gone)}
+				case j == 2 && len(indis) > 0:
+					op = Op{K: "DocDeleteForeign", Rt: "INDI", Rp: pick(indis)}
+				default:
+					continue
+				}
 			}
 			if op.Kids == nil {
 				op.Kids = []ANode{}
